@@ -618,3 +618,185 @@ def wl_misc_direct(p):
 
 
 WORKLOADS["misc_direct"] = (draw_misc_params, wl_misc_direct)
+
+
+# ---------------------------------------------------------------------------------
+# "legacy" entry points: exported, contain a parallel region, and are reachable only from
+# GPAW code, from the training-descriptor path (sdmx_slow) or not at all in this version
+# (older twins of the *_new / *_separate routines).  The property speaks of every quantity
+# computed by the C back end, so they are driven directly with the argument conventions
+# of their C definitions.
+# ---------------------------------------------------------------------------------
+def draw_legacy_params(rng):
+    return {
+        "natm": rng.choice([1, 2, 3, 5, 9]),
+        "ngrids": rng.choice([1, 2, 7, 16, 33, 57, 130]),
+        "nrad": rng.choice([2, 3, 5, 8, 17]),
+        "lmax": rng.choice([1, 2, 3, 4]),  # the spherical-harmonic recursion needs lmax >= 1
+        "nalpha": rng.choice([1, 2, 5]),
+        "nj": rng.choice([1, 2, 3]),
+        "mol": rng.choice(TINY_MOLS),
+        "basis": rng.choice(["sto-3g", "6-31g"]),
+        "sseed": rng.below(10**6),
+        "kind": rng.choice(SDMX_KINDS),
+        "dseed": rng.below(10**6),
+    }
+
+
+class _Syms:
+    """entry points by name; one that the tree under test no longer exports (a dead routine
+    was removed or renamed) is skipped - the call does nothing and is recorded in `absent` -
+    instead of failing the harness"""
+
+    def __init__(self, lib):
+        self._lib = lib
+        self.absent = []
+
+    def __getattr__(self, name):
+        try:
+            return getattr(self._lib, name)
+        except AttributeError:
+            self.absent.append(name)
+            return lambda *a: None
+
+
+def wl_legacy_direct(p):
+    import ciderpress.dft.plans  # noqa: F401
+    from ciderpress.lib import load_library
+
+    lib = load_library("libmcider")
+    L = _Syms(lib)
+    r = np.random.default_rng(p["dseed"])
+    ci = ctypes.c_int
+    cd = ctypes.c_double
+    out = {}
+    natm, ng, nrad, lmax, nalpha = p["natm"], p["ngrids"], p["nrad"], p["lmax"], p["nalpha"]
+    nlm = (lmax + 1) ** 2
+    aparam, dparam = 0.03, 0.35
+    coords = np.ascontiguousarray(r.normal(size=(ng, 3)) * 1.5)
+    atm_coords = np.ascontiguousarray(r.normal(size=(natm, 3)))
+    # compute_spline_bas: (natm, ngrids, nlm, 4) table of Y_lm * dr^p
+    auxo = np.zeros((natm, ng, nlm, 4))
+    L.compute_spline_bas(_vp(auxo), _vp(coords), _vp(atm_coords), ci(natm), ci(ng), ci(nrad), ci(nlm), cd(aparam), cd(dparam))
+    out["spline_bas"] = auxo
+    # compute_num_spline_contribs with and without the on-site exclusion table
+    cuts = np.sort(r.integers(0, ng + 1, natm - 1)) if natm > 1 else np.zeros(0, dtype=int)
+    ar_loc = np.ascontiguousarray(np.concatenate([[0], cuts, [ng]]).astype(np.int32))
+    num_ai = np.full((natm, nrad), -7, dtype=np.int32)
+    L.compute_num_spline_contribs(_vp(num_ai), _vp(coords), _vp(atm_coords), cd(aparam), cd(dparam), ci(natm), ci(ng), ci(nrad), _vp(ar_loc))
+    out["num_contribs.onsite_excluded"] = num_ai.astype(np.float64)
+    num_ai2 = np.full((natm, nrad), -7, dtype=np.int32)
+    L.compute_num_spline_contribs(_vp(num_ai2), _vp(coords), _vp(atm_coords), cd(aparam), cd(dparam), ci(natm), ci(ng), ci(nrad), None)
+    out["num_contribs.all"] = num_ai2.astype(np.float64)
+    # compute_num_spline_contribs_multi: per-atom locators (own nrad / aparam / dparam)
+    nrads = np.ascontiguousarray(r.integers(2, nrad + 2, natm).astype(np.int32))
+    aps = np.ascontiguousarray(0.02 + 0.03 * r.random(natm))
+    dps = np.ascontiguousarray(0.25 + 0.2 * r.random(natm))
+    if hasattr(lib, "initialize_spline_loc_list") and hasattr(lib, "compute_num_spline_contribs_multi"):
+        llist = ctypes.c_void_p()
+        L.initialize_spline_loc_list(ctypes.byref(llist), ci(natm), _vp(nrads), _vp(aps), _vp(dps))
+        sloc_list = ctypes.cast(llist, ctypes.POINTER(ctypes.c_void_p))[0]
+
+        class _SLoc(ctypes.Structure):
+            _fields_ = [("loc_i", ctypes.POINTER(ctypes.c_int)), ("num_i", ctypes.POINTER(ctypes.c_int)), ("rel_ord_coords", ctypes.c_void_p), ("ind_ord_fwd", ctypes.c_void_p), ("ind_ord_bwd", ctypes.c_void_p), ("nrad", ctypes.c_int), ("aparam", ctypes.c_double), ("dparam", ctypes.c_double), ("ngrids", ctypes.c_int), ("buffer_size", ctypes.c_int)]
+
+        slocs = ctypes.cast(sloc_list, ctypes.POINTER(_SLoc))
+        iatom_g = np.ascontiguousarray(r.integers(0, natm, ng).astype(np.int32))
+        L.compute_num_spline_contribs_multi(ctypes.c_void_p(sloc_list), _vp(coords), _vp(atm_coords), ci(ng), ci(natm), _vp(iatom_g))
+        multi = []
+        for a in range(natm):
+            assert slocs[a].nrad == int(nrads[a])
+            multi += [float(slocs[a].num_i[i]) for i in range(int(nrads[a]))]
+        out["num_contribs.multi"] = np.asarray(multi)
+    # compute_mol_convs_single: grid points grouped in radial blocks through loc_i
+    nblk = nrad - 1
+    cuts = np.sort(r.integers(0, ng + 1, nblk - 1)) if nblk > 1 else np.zeros(0, dtype=int)
+    loc_i = np.ascontiguousarray(np.concatenate([[0], cuts, [ng]] if nblk >= 1 else [[0]]).astype(np.int32))
+    loc_full = np.ascontiguousarray(np.concatenate([loc_i, [ng]]).astype(np.int32))
+    ind_ord_fwd = np.ascontiguousarray(r.permutation(ng).astype(np.int32))
+    maxg = int(np.max(np.diff(loc_full))) if loc_full.size > 1 else 1
+    f_rqlp = np.ascontiguousarray(r.normal(size=(nrad, nalpha, nlm, 4)))
+    f_gq = np.ascontiguousarray(r.normal(size=(ng, nalpha)))
+    L.compute_mol_convs_single(_vp(f_gq), _vp(f_rqlp), _vp(loc_full), _vp(ind_ord_fwd), _vp(coords), _vp(np.ascontiguousarray(atm_coords[0])), ci(nalpha), ci(nrad), ci(ng), ci(nlm), ci(max(maxg, 1)), cd(aparam), cd(dparam))
+    out["mol_convs_single"] = f_gq
+    # add_lp1_term_onsite_{fwd,bwd}
+    nf = 4 + int(r.integers(0, 3))
+    cols = [int(x) for x in r.permutation(nf)[:4]]
+    f1 = np.ascontiguousarray(r.normal(size=(ng, nf)))
+    f2 = f1.copy()
+    L.add_lp1_term_onsite_fwd(_vp(f1), _vp(coords), ci(natm), _vp(atm_coords), _vp(ar_loc), ci(cols[0]), ci(cols[1]), ci(cols[2]), ci(cols[3]), ci(nf))
+    L.add_lp1_term_onsite_bwd(_vp(f2), _vp(coords), ci(natm), _vp(atm_coords), _vp(ar_loc), ci(cols[0]), ci(cols[1]), ci(cols[2]), ci(cols[3]), ci(nf))
+    out["lp1_onsite_fwd"] = f1
+    out["lp1_onsite_bwd"] = f2
+    # contract_orb_to_rad_num / contract_rad_to_orb_num (numerical radial functions, GPAW)
+    nj_l = [int(x) for x in r.integers(1, p["nj"] + 1, lmax + 1)]
+    jloc_l = np.ascontiguousarray(np.concatenate([[0], np.cumsum(nj_l)]).astype(np.int32))
+    uloc_l = np.ascontiguousarray(np.concatenate([[0], np.cumsum([nj_l[l] * (2 * l + 1) for l in range(lmax + 1)])]).astype(np.int32))
+    nu = int(uloc_l[-1])
+    funcs_jg = np.ascontiguousarray(r.normal(size=(int(jloc_l[-1]), nrad)))
+    p_uq = np.ascontiguousarray(r.normal(size=(nu, nalpha)))
+    theta = np.ascontiguousarray(r.normal(size=(nrad, nlm, nalpha)))
+    th2 = theta.copy()
+    L.contract_orb_to_rad_num(_vp(th2), _vp(p_uq), _vp(funcs_jg), _vp(jloc_l), _vp(uloc_l), ci(nrad), ci(nlm), ci(nalpha))
+    out["orb_to_rad_num"] = th2
+    p2 = p_uq.copy()
+    L.contract_rad_to_orb_num(_vp(theta), _vp(p2), _vp(funcs_jg), _vp(jloc_l), _vp(uloc_l), ci(nrad), ci(nlm), ci(nalpha))
+    out["rad_to_orb_num"] = p2
+    # outputs of routines the tree does not export are untouched inputs: drop them
+    drop = {"compute_spline_bas": ["spline_bas"], "compute_num_spline_contribs": ["num_contribs.onsite_excluded", "num_contribs.all"], "compute_num_spline_contribs_multi": ["num_contribs.multi"], "initialize_spline_loc_list": ["num_contribs.multi"], "compute_mol_convs_single": ["mol_convs_single"], "add_lp1_term_onsite_fwd": ["lp1_onsite_fwd"], "add_lp1_term_onsite_bwd": ["lp1_onsite_bwd"], "contract_orb_to_rad_num": ["orb_to_rad_num"], "contract_rad_to_orb_num": ["rad_to_orb_num"]}
+    for name in L.absent:
+        for k in drop.get(name, []):
+            out.pop(k, None)
+    return out
+
+
+def wl_legacy_sdmx(p):
+    """SDMXeval_loop (training-descriptor path, through the package's own eval_conv_ao_fast)
+    and the SDMXcontract_ao_to_bas_grid pair (C signature; their Python caller never selects
+    them)."""
+    from ciderpress.pyscf import sdmx_slow
+    from ciderpress.pyscf.sdmx import EXXSphGenerator, _get_nrf, _get_rf_loc, _get_ylm_atom_loc, libcider
+    from cidersim import zoo
+
+    rng = Rng(derive("omp-legacy-sdmx", p["sseed"]))
+    st = zoo.make_settings(p["kind"], rng, normalizer=False)
+    mol = zoo.make_mol(p["mol"], p["basis"])
+    r = np.random.default_rng(p["dseed"])
+    ng = p["ngrids"]
+    coords = r.normal(size=(ng, 3)) * 1.5
+    out = {}
+    gen = sdmx_slow.EXXSphGenerator.from_settings_and_mol(st.sdmx_settings, 1, mol)
+    for deriv in ([0, 1] if gen.has_l1 else [0]):
+        cao = sdmx_slow.eval_conv_ao_fast(gen.plan, mol, coords, deriv=deriv)
+        out["conv_ao_fast.deriv%d" % deriv] = np.array(cao)
+    gen2 = EXXSphGenerator.from_settings_and_mol(st.sdmx_settings, 1, mol)
+    fcoords = np.asfortranarray(coords)
+    ylm = gen2._get_ylm(mol, fcoords, savebuf=False)
+    ylm_atom_loc = _get_ylm_atom_loc(mol)
+    rf_loc = _get_rf_loc(mol)
+    nrf = _get_nrf(mol)
+    nao = mol.nao_nr()
+    ao_loc = mol.ao_loc_nr()
+    ci = ctypes.c_int
+    atomx = np.ascontiguousarray(mol.atom_coords(unit="Bohr")[:, 0])
+    gridx = np.ascontiguousarray(coords[:, 0])
+    c0 = np.ascontiguousarray(r.normal(size=(nao, ng)))
+    b0 = np.full((nrf, ng), 7.5)
+    common = [ci(ng), None, _vp(np.ascontiguousarray(ylm[0])), None, (ci * 2)(0, mol.nbas), _vp(ao_loc), _vp(ylm_atom_loc), _vp(mol._atm), ci(mol.natm), _vp(mol._bas), ci(mol.nbas), _vp(mol._env)]
+    a = list(common)
+    a[1], a[3] = _vp(b0), _vp(c0)
+    if hasattr(libcider, "SDMXcontract_ao_to_bas_grid"):
+        libcider.SDMXcontract_ao_to_bas_grid(*a, ci(int(rf_loc[-1])), _vp(rf_loc), _vp(gridx), _vp(atomx))
+        out["ao_to_bas_grid"] = b0
+    b1 = np.ascontiguousarray(r.normal(size=(nrf, ng)))
+    c1 = np.ascontiguousarray(r.normal(size=(nao, ng)))
+    a = list(common)
+    a[1], a[3] = _vp(b1), _vp(c1)
+    if hasattr(libcider, "SDMXcontract_ao_to_bas_grid_bwd"):
+        libcider.SDMXcontract_ao_to_bas_grid_bwd(*a, _vp(gridx), _vp(atomx), ci(int(rf_loc[-1])), _vp(rf_loc))
+        out["ao_to_bas_grid_bwd"] = c1
+    return out
+
+
+WORKLOADS["legacy_direct"] = (draw_legacy_params, wl_legacy_direct)
+WORKLOADS["legacy_sdmx"] = (draw_legacy_params, wl_legacy_sdmx)
